@@ -104,15 +104,70 @@ def r2(cx, rec):
     if not guards:
         raise AnchorMissing('no requested-block test')
     P = F.body(guards[0][1])
-    # every assignment of the return value is `false` or Iterator::any over the requested queue
-    any_bbs = []
+    # every assignment of the return value is `false`, Iterator::any over the requested queue, or `true` behind the
+    # per-request predicate inside a loop over the requested queue
+    fields_ty = {x['name']: x['ty'] for x in F.adts[adt]['variants'][0]['fields']}
+    scans = []   # (anchor block, predicate fn, predicate block, predicate expr)
+
+    def queue_ok(src, bi):
+        q = (src or '').split('.')[-1]
+        ok = fields_ty.get(q, '').startswith('std::collections::VecDeque')
+        rec.need(ok, 'guard-any-source', P, bi, 'the test iterates %s, not a queue of outstanding requests' % src)
+        return ok
+
+    def peel(e):
+        neg = False
+        while True:
+            if e[0] == 'unop' and e[1] == 'Not':
+                neg = not neg
+                e = e[2]
+                continue
+            if e[0] == 'binop' and e[1] in ('Eq', 'Ne') and e[3][0] == 'const' and e[3][3] == 'bool':
+                if (e[1] == 'Eq') != bool(e[3][1]):
+                    neg = not neg
+                e = e[2]
+                continue
+            return e, neg
+
     for bi, b in enumerate(P.blocks):
         if b.get('cleanup'):
             continue
         for s in b['s']:
             if s['k'] == 'assign' and s['lhs']['l'] == 0 and not s['lhs'].get('p'):
                 c = const_of(P.expr_rvalue(s['rv']))
-                rec.need(c is not None and c[0] == 0, 'guard-returns-nonfalse', P, bi,
+                if c is not None and c[0] == 0:
+                    continue
+                covered = False
+                if c is not None and c[0] == 1:
+                    for sb in P.switches():
+                        ce, neg = peel(P.cond(sb)[0])
+                        be = P.bool_edges(sb)
+                        if not be or not (ce[0] == 'call' and ce[4].get('name') == 'is_ok'):
+                            continue
+                        tt, ff = be
+                        if neg:
+                            tt, ff = ff, tt
+                        if bi in P.only_via_edge((sb, tt)) or bi == tt:
+                            nx = [x for x in walk(ce, inl=False) if x[0] == 'call' and x[1] == 'std::iter::Iterator::next']
+                            its = {show(x) for x in nx}
+                            if len(its) == 1:
+                                it = mirq.init_of(nx[0][2][0])
+                                x = it
+                                whole = True
+                                while x[0] in ('call', 'cast'):
+                                    if x[0] == 'call':
+                                        if x[4].get('name') not in ('iter', 'into_iter'):
+                                            whole = False
+                                            break
+                                        x = x[2][0]
+                                    else:
+                                        x = x[1]
+                                src = access_path(it) or ''
+                                rec.site(P, sb, 'returns true behind is_ok(..) for an element of %s' % src)
+                                if whole and queue_ok(src, sb):
+                                    covered = True
+                                    scans.append((sb, P, sb, ce))
+                rec.need(covered, 'guard-returns-nonfalse', P, bi,
                          'requested-block test returns %s without looking at the outstanding requests'
                          % show(P.expr_rvalue(s['rv']))[:80])
         t = b['t']
@@ -120,17 +175,30 @@ def r2(cx, rec):
             e = P.expr_call(bi)
             if e[4].get('name') in ('any',) and e[2]:
                 src = access_path(e[2][0]) or ''
-                q = src.split('.')[-1]
-                qty = {x['name']: x['ty'] for x in F.adts[adt]['variants'][0]['fields']}.get(q, '')
                 rec.site(P, bi, 'returns any(%s, closure)' % src)
-                rec.need(qty.startswith('std::collections::VecDeque'), 'guard-any-source', P, bi,
-                         'the test iterates %s, not a queue of outstanding requests' % src)
-                any_bbs.append((bi, e))
+                queue_ok(src, bi)
+                clo = [x for x in walk(e) if x[0] == 'closure']
+                if not clo:
+                    rec.violation('guard-closure', P, bi, 'predicate of any() is not a closure')
+                    continue
+                cf = F.fn(clo[0][1])
+                rets = []
+                for cbi, cb in enumerate(cf.blocks):
+                    ct = cb['t']
+                    if ct['k'] == 'call' and ct['dest']['l'] == 0 and not cb.get('cleanup'):
+                        rets.append((cbi, cf.expr_call(cbi)))
+                    for cs in cb['s']:
+                        if cs['k'] == 'assign' and cs['lhs']['l'] == 0 and not cb.get('cleanup'):
+                            rets.append((cbi, cf.expr_rvalue(cs['rv'])))
+                rec.need(len(rets) == 1, 'guard-predicate', cf, None,
+                         'predicate of the outstanding-request scan is not `validate(index, begin, length).is_ok()`')
+                for cbi, r in rets:
+                    scans.append((bi, cf, cbi, r))
             else:
                 rec.violation('guard-return-call', P, bi, 'requested-block test returns the result of %s' % show(e)[:80])
-    rec.need(bool(any_bbs), 'guard-no-any', P, None, 'requested-block test never consults the outstanding requests')
-    # index equality dominates the `any`
-    for bi, e in any_bbs:
+    rec.need(bool(scans), 'guard-no-any', P, None, 'requested-block test never consults the outstanding requests')
+    # index equality dominates the scan
+    for bi, cf, cbi, r in scans:
         ok = False
         for sb in P.switches():
             ce, ts, o = P.cond(sb)
@@ -145,34 +213,20 @@ def r2(cx, rec):
                         rec.site(P, sb, 'index guard %s' % show(ce)[:100])
         rec.need(ok, 'guard-index-not-compared', P, bi,
                  'the outstanding-request scan is reachable without the block\'s index being equal to the assigned index')
-        # closure: is_ok(validate(piece, idx, a.0, a.1))
-        clo = [x for x in walk(e) if x[0] == 'closure']
-        if not clo:
-            rec.violation('guard-closure', P, bi, 'predicate of any() is not a closure')
-            continue
-        cf = F.fn(clo[0][1])
-        rets = []
-        for cbi, b in enumerate(cf.blocks):
-            t = b['t']
-            if t['k'] == 'call' and t['dest']['l'] == 0 and not b.get('cleanup'):
-                rets.append((cbi, cf.expr_call(cbi)))
-            for s in b['s']:
-                if s['k'] == 'assign' and s['lhs']['l'] == 0 and not b.get('cleanup'):
-                    rets.append((cbi, cf.expr_rvalue(s['rv'])))
+        # predicate: is_ok(validate(piece, idx, a.0, a.1))
         okc = False
-        for cbi, r in rets:
-            if r[0] == 'call' and r[4].get('name') == 'is_ok' and r[2] and r[2][0][0] == 'call' and r[2][0][1] in F.fns:
-                v = r[2][0]
-                args = v[2]
-                rec.site(cf, cbi, 'predicate is_ok(%s)' % show(v)[:140])
-                a1 = access_path(args[1]) or ''
-                a2 = show(args[2])
-                a3 = show(args[3]) if len(args) > 3 else ''
-                okc = (a1.split('.')[-1] == idx and a2.endswith('.0') and a3.endswith('.1') and a2[:-2] == a3[:-2])
-                rec.need(okc, 'guard-validate-args', cf, cbi,
-                         'validate is not given (assigned index, request.begin, request.length): %s' % show(v)[:160])
-                validate_semantics(F, F.fn(v[1]), rec)
-        rec.need(bool(rets) and okc, 'guard-predicate', cf, None,
+        if r[0] == 'call' and r[4].get('name') == 'is_ok' and r[2] and r[2][0][0] == 'call' and r[2][0][1] in F.fns:
+            v = r[2][0]
+            args = v[2]
+            rec.site(cf, cbi, 'predicate is_ok(%s)' % show(v)[:140])
+            a1 = access_path(args[1]) or ''
+            a2 = show(args[2])
+            a3 = show(args[3]) if len(args) > 3 else ''
+            okc = (a1.split('.')[-1] == idx and a2.endswith('.0') and a3.endswith('.1') and a2[:-2] == a3[:-2])
+            rec.need(okc, 'guard-validate-args', cf, cbi,
+                     'validate is not given (assigned index, request.begin, request.length): %s' % show(v)[:160])
+            validate_semantics(F, F.fn(v[1]), rec)
+        rec.need(okc, 'guard-predicate', cf, None,
                  'predicate of the outstanding-request scan is not `validate(index, begin, length).is_ok()`')
 
 
@@ -364,7 +418,8 @@ def r6(cx, rec):
     tgt, region = C.arm_region(pf, psbs[0], 'PieceDone')
     done_handlers = {t for b, t in C.local_calls(F, pf) if b in region or b == tgt}
     fresh = []
-    for f in F.user_fns():
+    from rules import C12
+    for f in C12.spliced_fns(F):
         for bi, si, le, v in C.status_stores(f, 'Have'):
             s = f.blocks[bi]['s'][si]
             e = f.expr_rvalue(s['rv'])
